@@ -1,6 +1,7 @@
 package props
 
 import (
+	"strconv"
 	"fmt"
 	"go/token"
 	"go/types"
@@ -405,15 +406,98 @@ func (env *Env) c12URLs() {
 			r.Undecided("C12/URL", w.fn, env.P.Pos(fn.Pos()), "URL builder must have a single return")
 			continue
 		}
-		args := []pat.M{pat.Const(w.base)}
-		for i := range fn.Params {
-			args = append(args, pat.Is(param(fn, i)))
+		// the returned string as literal text with holes, however it is put together
+		// (fmt.Sprintf with %s verbs, + concatenation)
+		format, _ := strconv.Unquote(w.format)
+		base, _ := strconv.Unquote(w.base)
+		var wantParts []string
+		segs := strings.Split(format, "%s")
+		text := segs[0]
+		if len(segs) > 1 {
+			text += base + segs[1] // the first verb is the base URL
 		}
-		m := pat.Call("fmt.Sprintf", pat.Const(w.format), pat.Slice(pat.Op(flow.OpArray, "", args...), "", ""))
-		if m(alts[0].Results[0], pat.Bind{}) {
-			r.OK("C12/URL", w.fn, env.P.Pos(fn.Pos()), "fmt.Sprintf("+w.format+", "+w.baseName+", arg)")
+		wantParts = append(wantParts, text)
+		for i := range fn.Params {
+			wantParts = append(wantParts, param(fn, i).String())
+			if i+2 < len(segs) && segs[i+2] != "" {
+				wantParts = append(wantParts, segs[i+2])
+			}
+		}
+		got, okParts := stringParts(alts[0].Results[0])
+		if okParts && strings.Join(got, "\x00") == strings.Join(wantParts, "\x00") {
+			r.OK("C12/URL", w.fn, env.P.Pos(fn.Pos()), "returns "+w.format+" with "+w.baseName+" and the argument")
 		} else {
 			r.Fail("C12/URL", w.fn, env.P.Pos(fn.Pos()), fmt.Sprintf("pcs.%s must return fmt.Sprintf(%s, %s=%s, argument); returns %s", w.fn, w.format, w.baseName, w.base, alts[0].Results[0]))
 		}
 	}
+}
+
+// stringParts flattens a string-valued term into literal text and holes:
+// fmt.Sprintf with only %s verbs, + concatenation and literals. Adjacent
+// literals are merged; a hole is the canonical string of its term.
+func stringParts(t *flow.Term) ([]string, bool) {
+	type part struct {
+		lit  bool
+		text string
+	}
+	var flat func(t *flow.Term) ([]part, bool)
+	flat = func(t *flow.Term) ([]part, bool) {
+		t = flow.StripConv(t)
+		switch {
+		case t.Op == flow.OpConst && strings.HasPrefix(t.Name, "\""):
+			s, err := strconv.Unquote(t.Name)
+			if err != nil {
+				return nil, false
+			}
+			return []part{{true, s}}, true
+		case t.Op == flow.OpBin && t.Name == "+" && len(t.Args) == 2:
+			a, ok1 := flat(t.Args[0])
+			b, ok2 := flat(t.Args[1])
+			return append(a, b...), ok1 && ok2
+		case t.Op == flow.OpCall && t.Name == "fmt.Sprintf" && len(t.Args) == 2:
+			f := flow.StripConv(t.Args[0])
+			if f.Op != flow.OpConst {
+				return nil, false
+			}
+			format, err := strconv.Unquote(f.Name)
+			if err != nil {
+				return nil, false
+			}
+			args, ok := flow.SeqElems(t.Args[1])
+			segs := strings.Split(format, "%s")
+			if !ok || len(segs) != len(args)+1 || strings.Contains(strings.Join(segs, ""), "%") {
+				return nil, false
+			}
+			var out []part
+			for i, sg := range segs {
+				if sg != "" {
+					out = append(out, part{true, sg})
+				}
+				if i < len(args) {
+					sub, ok := flat(args[i])
+					if !ok {
+						return nil, false
+					}
+					out = append(out, sub...)
+				}
+			}
+			return out, true
+		}
+		return []part{{false, t.String()}}, true
+	}
+	ps, ok := flat(t)
+	if !ok {
+		return nil, false
+	}
+	var out []string
+	lastLit := false
+	for _, p := range ps {
+		if p.lit && lastLit {
+			out[len(out)-1] += p.text
+			continue
+		}
+		out = append(out, p.text)
+		lastLit = p.lit
+	}
+	return out, true
 }
